@@ -256,6 +256,11 @@ def _objects():
         # several isotherms handed over together, stored in DIFFERENT pressure units / temperatures (isosteric enthalpy, IAST)
         'point_list_mixed': lambda: [_langmuir_point(pygaps, T, K, unit, scale) for T, K, unit, scale in
                                      ((298.15, 0.9, 'bar', 1.0), (323.15, 0.55, 'kPa', 100.0), (348.15, 0.35, 'Pa', 1e5))],
+        # material properties given as other JSON types (int, numeric text): reads that need them must not rewrite them
+        'point_rel_typed': lambda: pygaps.PointIsotherm(pressure=_PREL, loading=load, pressure_mode='relative',
+                                                       **dict(kw, material={'name': 'verif_c04_typed', 'density': 2, 'molar_mass': '60', 'batch': 7})),
+        # models that keep the temperature of the fit: fitted at two different temperatures in one process
+        'model_dr_77': lambda: _fit_model(pygaps, 'DR', 77.355), 'model_da_77': lambda: _fit_model(pygaps, 'DA', 77.355),
         'model_langmuir_pa': lambda: model('Langmuir', {'n_m': 3.0123456789123, 'K': 0.8123456789123e-5}, 'Pa'),
         'model_toth_pa': lambda: model('Toth', {'n_m': 3.0123456789123, 'K': 0.8123456789123e-5, 't': 0.7123456789123}, 'Pa'),
     }
@@ -265,6 +270,16 @@ def _langmuir_point(pygaps, T, K, unit, scale, ads='nitrogen'):
     p = [0.05, 0.1, 0.2, 0.5, 1.0, 2.0, 4.0, 7.0, 10.0]
     return pygaps.PointIsotherm(pressure=[x * scale for x in p], loading=[3.0 * K * x / (1 + K * x) for x in p], material='verif_c04', adsorbate=ads, temperature=T,
                                 pressure_mode='absolute', pressure_unit=unit, loading_basis='molar', loading_unit='mmol', material_basis='mass', material_unit='g')
+
+
+def _fit_model(pygaps, name, T):
+    """a model isotherm FITTED (not built from parameters) on Dubinin-type data at temperature T, relative pressure"""
+    import pygaps.modelling as pgm
+    p = [1e-4, 1e-3, 5e-3, 0.01, 0.03, 0.06, 0.1, 0.15, 0.2, 0.3]
+    n = [8.0 * np.exp(-((8.314 * T * np.log(1 / x)) / 9000.0) ** 2) for x in p]
+    iso = pygaps.PointIsotherm(pressure=p, loading=n, material='verif_c04', adsorbate='nitrogen', temperature=T, pressure_mode='relative',
+                               loading_basis='molar', loading_unit='mmol', material_basis='mass', material_unit='g')
+    return pgm.model_iso(iso, model=name)
 
 
 def _calls():
@@ -299,6 +314,16 @@ def _calls():
     c['isosteric_enthalpy:mixed_units'] = ('point_list_mixed', lambda L: pgc.isosteric_enthalpy(L, loading_points=[0.4, 0.8, 1.2]))
     c['isosteric_enthalpy:out_of_range'] = ('point_list_mixed', lambda L: pgc.isosteric_enthalpy(L, loading_points=[0.4, 2.9]))
     c['iast:point_list'] = ('point_list_mixed', lambda L: pgi.iast_point_fraction(L[:2], [0.4, 0.6], 1.5))
+    c['loading_vol:typed'] = ('point_rel_typed', lambda i: i.loading(material_basis='volume', material_unit='cm3'))
+    c['loading_molar:typed'] = ('point_rel_typed', lambda i: i.loading(material_basis='molar', material_unit='mmol'))
+    c['loading_at_vol:typed'] = ('point_rel_typed', lambda i: i.loading_at(0.3, material_basis='volume', material_unit='cm3'))
+    c['material_getters:typed'] = ('point_rel_typed', lambda i: [repr(i.material.density), repr(i.material.molar_mass)])
+    for mk in ('model_dr_77', 'model_da_77'):
+        c['loading_at:' + mk] = (mk, lambda i: i.loading_at([0.01, 0.1]))
+        c['pressure_at:' + mk] = (mk, lambda i: i.pressure_at([2.0, 5.0]))
+        c['spreading:' + mk] = (mk, lambda i: i.spreading_pressure_at(0.1))
+    c['fit_dr_at_another_temperature'] = ('point_rel', lambda i: _fit_model(__import__('pygaps'), 'DR', 120.0).model.params)
+    c['fit_da_at_another_temperature'] = ('point_rel', lambda i: _fit_model(__import__('pygaps'), 'DA', 95.0).model.params)
     for mk in ('model_langmuir', 'model_toth', 'model_dsl'):
         if mk != 'model_dsl':
             c['whittaker:' + mk] = (mk + '_pa', lambda i: pgc.enthalpy_sorption_whittaker(i, loading=[0.5, 1.0]))
